@@ -36,7 +36,11 @@ type Config struct {
 	PwMinLen, PwMinUpper, PwMinLower, PwMinNum, PwMinSym int
 	PwAllowSpace                                         bool
 
-	OddPIDs          bool `json:"odd_pids"`
+	OddPIDs bool `json:"odd_pids"`
+	// NilEmptyState: the client-state stores return a nil ClientState for an
+	// empty jar (the interface allows it: "WriteState can sometimes be called
+	// with a nil ClientState")
+	NilEmptyState    bool `json:"nil_empty_state"`
 	NAccounts        int  `json:"n_accounts"`
 	NBrowsers        int  `json:"n_browsers"`
 	WholeSecondClock bool `json:"whole_second_clock"`
@@ -169,6 +173,7 @@ func baseConfig(r *Rng) Config {
 	c.NAccounts = 2 + r.Intn(3)
 	c.NBrowsers = 2 + r.Intn(3)
 	c.WholeSecondClock = r.Bool()
+	c.NilEmptyState = r.Chance(1, 3)
 	for i := 0; i < c.NAccounts; i++ {
 		a := AcctSpec{Confirmed: r.Chance(5, 6)}
 		if c.hasSetup("totp") && r.Chance(1, 3) {
